@@ -3645,4 +3645,127 @@ theorem indexedB_sound {t : Table} {N : Nat} (h : indexedB t N = true) : Indexed
     simpa using this.1
 
 
+/-! ## `insert` of a sequence of rows -/
+
+theorem find_zipIdx (c : Nat) : ∀ (l : List Nat) (n : Nat), c ∈ l →
+    (l.zipIdx n).find? (fun q => q.1 == c) = some (c, n + l.idxOf c)
+  | [], _, h => by simp at h
+  | d :: rest, n, h => by
+    simp only [List.zipIdx_cons, List.find?_cons]
+    by_cases hd : d = c
+    · subst hd; simp
+    · have h1 : (d == c) = false := by simpa using hd
+      simp only [h1]
+      have hmem : c ∈ rest := by
+        simp at h; rcases h with h | h
+        · exact absurd h.symm hd
+        · exact h
+      rw [find_zipIdx c rest (n + 1) hmem, List.idxOf_cons_ne _ hd]
+      congr 2; omega
+
+theorem map_getD_idxOf (l : List Nat) (r : List Cell) (hnd : l.Nodup) (hlen : r.length = l.length) :
+    l.map (fun c => r.getD (l.idxOf c) .missing) = r := by
+  apply List.ext_getElem
+  · simp [hlen]
+  · intro j h1 h2
+    simp only [List.length_map] at h1
+    simp only [List.getElem_map, hnd.idxOf_getElem j h1, List.getD, List.getElem?_eq_getElem h2, Option.getD_some]
+
+theorem cellAt_append_left (b x : List Cell) (i : Nat) (h : i < b.length) : cellAt (b ++ x) i = cellAt b i := by
+  simp [cellAt, List.getD, List.getElem?_append_left h]
+
+theorem cellAt_append_right (b x : List Cell) (i : Nat) (h : b.length ≤ i) : cellAt (b ++ x) i = cellAt x (i - b.length) := by
+  simp [cellAt, List.getD, List.getElem?_append_right h]
+
+theorem cellAt_map_rows (rows : List (List Cell)) (k j : Nat) (hj : j < rows.length) :
+    cellAt (rows.map (fun row => row.getD k .missing)) j = (rows[j]).getD k .missing := by
+  simp [cellAt, List.getD, List.getElem?_map, List.getElem?_eq_getElem hj]
+
+/-- **insert(rows)**: the table afterwards shows the old rows followed by the new ones -/
+theorem insert_rows_spec' (cfg : Cfg) (t : Table) (N : Nat) (hok : t.OK N) (hsel : t.sel = .all)
+    (hnd : t.columns.Nodup) (hcne : t.columns ≠ []) (hkeys : ∀ p ∈ t.data, p.1 ∈ t.columns)
+    (r : List Cell) (rs : List (List Cell)) (hlen : ∀ x ∈ r :: rs, x.length = t.columns.length)
+    (R : List (List Cell)) (hR : t.rows = .ok R) :
+    ∃ t', t.insert cfg (.rows (r :: rs)) = .ok t' ∧ t'.rows = .ok (R ++ (r :: rs)) ∧
+      t'.columns = t.columns ∧ t'.indexes = t.indexes ∧ t'.OK (N + (r :: rs).length) := by
+  have hm : t.m N = N := by simp [Table.m, hsel, Sel.idx]
+  have hRe : R = (List.range N).map t.rowAt := by
+    have := hok.rows_eq hcne
+    rw [hR, hm] at this
+    exact Except.ok.inj this
+  have h1 : ¬ (r.length ≠ t.columns.length) := by simpa using hlen r (by simp)
+  have h2 : ¬ ((rs.all (fun r' => r'.length == t.columns.length)) = false) := by
+    simp only [Bool.not_eq_false, List.all_eq_true, beq_iff_eq]
+    exact fun x hx => hlen x (by simp [hx])
+  let f : Nat × List Cell → Nat × List Cell := fun p =>
+    match t.columns.zipIdx.find? (fun c => c.1 == p.1) with
+    | some c => (p.1, p.2 ++ (r :: rs).map (fun row => row.getD c.2 .missing))
+    | Option.none => p
+  have hf1 : ∀ p, (f p).1 = p.1 := by
+    intro p; simp only [f]; split <;> rfl
+  have hf2 : ∀ p, p.1 ∈ t.columns → (f p).2 = p.2 ++ (r :: rs).map (fun row => row.getD (t.columns.idxOf p.1) .missing) := by
+    intro p hp
+    simp only [f, find_zipIdx p.1 t.columns 0 hp, Nat.zero_add]
+  have hlook : ∀ c ∈ t.columns, ∃ b, lookupCol t.data c = .ok b ∧ b.length = N ∧
+      lookupCol (t.data.map f) c = .ok (b ++ (r :: rs).map (fun row => row.getD (t.columns.idxOf c) .missing)) := by
+    intro c hc
+    obtain ⟨b, hb⟩ := hok.cols c hc
+    refine ⟨b, hb, hok.len _ (lookupCol_mem hb), ?_⟩
+    have hfind : (t.data.map f).find? (fun p => p.1 == c) = (t.data.find? (fun p => p.1 == c)).map f := by
+      rw [List.find?_map]; congr 2; funext p; simp [Function.comp, hf1]
+    have hbf : t.data.find? (fun p => p.1 == c) = some (c, b) := by
+      unfold lookupCol at hb
+      cases hfd : t.data.find? (fun p => p.1 == c) with
+      | none => simp [hfd] at hb
+      | some p =>
+        have := List.find?_some hfd
+        simp only [beq_iff_eq] at this
+        simp [hfd] at hb
+        cases p; simp_all
+    simp only [lookupCol, hfind, hbf, Option.map_some]
+    rw [hf2 (c, b) hc]
+  have hok' : Table.OK { t with data := t.data.map f } (N + (r :: rs).length) := by
+    refine ⟨?_, ?_, by rw [hsel]; exact ⟨by simpa [Sel.idx, StrictInc, List.range_eq_range'] using (List.pairwise_lt_range' (s := 0) (n := N + (r :: rs).length)), by simp [Sel.idx]⟩⟩
+    · intro p hp
+      obtain ⟨q, hq, rfl⟩ := List.mem_map.mp hp
+      rw [hf2 q (hkeys q hq)]
+      simp [hok.len q hq]
+    · intro c hc
+      obtain ⟨b, _, _, hb'⟩ := hlook c hc
+      exact ⟨_, hb'⟩
+  refine ⟨{ t with data := t.data.map f }, ?_, ?_, rfl, rfl, hok'⟩
+  · simp only [Table.insert, h1, h2, if_false]
+    rfl
+  · have hm' : Table.m { t with data := t.data.map f } (N + (r :: rs).length) = N + (r :: rs).length := by
+      simp [Table.m, hsel, Sel.idx]
+    rw [hok'.rows_eq hcne, hm', hRe]
+    congr 1
+    apply List.ext_getElem
+    · simp
+    · intro i hi1 hi2
+      simp only [List.length_map, List.length_range] at hi1
+      simp only [List.getElem_map, List.getElem_range]
+      by_cases hiN : i < N
+      · rw [List.getElem_append_left (by simpa using hiN)]
+        simp only [List.getElem_map, List.getElem_range, Table.rowAt]
+        apply List.map_congr_left
+        intro c hc
+        obtain ⟨b, hb, hbl, hb'⟩ := hlook c hc
+        rw [vcol_all _ (by exact hsel), vcol_all t hsel]
+        simp only [Table.base, hb, hb']
+        exact cellAt_append_left b _ i (by omega)
+      · rw [List.getElem_append_right (by simpa using hiN)]
+        simp only [List.length_map, List.length_range]
+        have hk : i - N < (r :: rs).length := by omega
+        have hrow := hlen _ (List.getElem_mem hk)
+        rw [← map_getD_idxOf t.columns ((r :: rs)[i - N]) hnd hrow]
+        simp only [Table.rowAt]
+        apply List.map_congr_left
+        intro c hc
+        obtain ⟨b, hb, hbl, hb'⟩ := hlook c hc
+        rw [vcol_all _ (by exact hsel)]
+        simp only [Table.base, hb']
+        rw [cellAt_append_right b _ i (by omega), hbl, cellAt_map_rows (r :: rs) _ (i - N) hk]
+
+
 end Coba.C17
